@@ -29,6 +29,23 @@ CHECKS = {
         note="A zone whose sensor is the controller itself is not revealed by 000C (real controllers answer 'no device'): sensor unknown or = controller are both accepted. "
         "Thermostats shared between zones and UFH zones are outside the product.",
     ),
+    "C20": dict(
+        engine="E1-sched (two gateways + ether)",
+        category="model_checking",
+        technique=E1 + "; two real Gateways joined by an ether whose every delivery decision is a choice point",
+        text="For each of the repo's five pairing flows (thermostat->controller, CO2->fan, remote->fan, display->fan, DHW sensor->controller; with and "
+        "without addenda) a faked supplicant and a faked respondent run on two real Gateways on one virtual loop. At every transmission of a 1FC9/10E0 "
+        "frame the explorer chooses: heard once; heard 2 or 3 times in one loop iteration / 20 ms / 150 ms apart; lost for the peer / for everybody; the "
+        "whole command (all retransmissions) lost / unheard by the peer; heard 2.95, 3.05, 4.95, 5.05, 5.15 s late (around the 3 s and 5 s waits); followed by "
+        "a third party's offer, broadcast offer, accept or confirm; the respondent or supplicant caller abandons. All schedules with <= 3 repeats-only "
+        "deviations (thorough 4 = every repeat pattern over every frame), <= 2 (3) mixed deviations, <= 3 (4) loss/late/cancel deviations, plus start offsets of "
+        "either side around the 5 s offer wait. Oracle: under repeats and third-party traffic both ends succeed with frame-for-frame equal tuples equal to "
+        "the flow; every attempt ends within the sum of its stated waits with the tuple or a library error; once both have ended neither device is binding; "
+        "nothing reaches the loop exception handler; a fresh fault-free attempt 0.5 s (or 12 s) later succeeds with equal tuples.",
+        design_ref="4/C20",
+        note="A failed send surfaces as ProtocolSendFailed (a library error, not a BindingError): accepted as the attempt's error. asyncio's 'exception was never retrieved' notice for a state "
+        "future failed by its own timer is not counted as a loop exception. Impersonation notices are off, as in the repo's binding tests.",
+    ),
     "C18": dict(
         engine="E1-sched",
         category="model_checking",
